@@ -147,6 +147,23 @@ func init() {
 			for _, f := range bases {
 				add("base", f)
 			}
+			// 0. the total-length field, varied on its own (the decoder does not read the payload: every
+			// 32-bit value is a legal declaration): payload length = total + 4 - header length at the
+			// 2^31 and 2^32 boundaries, below the header length, and at random
+			for _, f := range bases {
+				var vals []uint32
+				for d := uint32(0); d < 12; d++ {
+					vals = append(vals, d, 0x7fffffff-d, 0x80000000+d, 0xffffffff-d, uint32(len(f))-4+d, uint32(len(f))-4-d, 0x3fffffff+d, 0x40000000-d)
+				}
+				for i := 0; i < 40; i++ {
+					vals = append(vals, g.R.Uint32())
+				}
+				for _, v := range vals {
+					b := append([]byte(nil), f...)
+					binary.BigEndian.PutUint32(b, v)
+					add("total-length", b)
+				}
+			}
 			// 1. short inputs
 			for n := 0; n <= 20; n++ {
 				if n <= len(frameA) {
